@@ -620,14 +620,16 @@ def r11_walker_segment_test_siblings(ck, P):
         sigs[fn] = sig
     if len(sigs) < 2:
         ck.incomplete(R, 'fewer than two functions re-seat the walker'); return
-    ref_fn = sorted(sigs)[0]; ref = {(a, b) for a, b, _ in sigs[ref_fn]}
+    # a comparison and its negation split the line at the same point: x < f and x >= f are one test, x <= f and x > f another
+    CLS = {'slt': '<|>=', 'sge': '<|>=', 'sle': '<=|>', 'sgt': '<=|>', 'eq': '==', 'ne': '=='}
+    ref_fn = sorted(sigs)[0]; ref = {(a, CLS.get(b, b)) for a, b, _ in sigs[ref_fn]}
     for fn, sig in sorted(sigs.items()):
-        cur = {(a, b) for a, b, _ in sig}
+        cur = {(a, CLS.get(b, b)) for a, b, _ in sig}
         if cur == ref:
             ck.ok(R, '%s: x %s' % (fn, ', '.join('%s %s' % (b, a) for a, b in sorted(cur))))
         else:
             d = sorted(cur ^ ref)
-            loc = next((l for a, b, l in sig if (a, b) in cur - ref), None) or next(iter(f.insts())).loc()
+            loc = next((l for a, b, l in sig if (a, CLS.get(b, b)) in cur - ref), None) or next(iter(f.insts())).loc()
             ck.violation(R, fn, 'segment test', '%s tests the cached walker segment with {%s} while %s uses {%s}: for x exactly on a stop the two pipelines evaluate different segments (the half-open segment [left_x, right_x) excludes right_x), so the wide and the narrow rendering of the same gradient differ by a whole stop colour at hard edges' % (fn, ', '.join('x %s %s' % (b, a) for a, b in sorted(cur)), ref_fn, ', '.join('x %s %s' % (b, a) for a, b in sorted(ref))), loc)
 
 
